@@ -60,6 +60,7 @@ fn show(h: &[Call]) -> String {
 struct St {
   n_sub: usize,
   live: Vec<bool>,
+  plain: Vec<bool>,
   connected: bool,
   src_done: bool,
 }
@@ -77,11 +78,16 @@ fn rec(cur: &mut Vec<Call>, st: &mut St, kind: Kind, hot: bool, max_len: usize, 
     // take(k) subscribers not for replay(): whether a subscriber that ends during the
     // hand-over of the history had already connected the source, and how much of a
     // synchronous emission the history keeps after it left, is not fixed by the statement
-    for variant in 0..(if kind == Kind::Replay { 1 } else { 3usize }) {
+    // ... unless a plain subscriber is present throughout its arrival: the source is connected
+    // already and stays so, the take(k) subscriber only has to be handed the history and leave
+    let plain_live = (0..st.n_sub).any(|i| st.live[i] && st.plain[i]);
+    for variant in 0..(if kind == Kind::Replay && !plain_live { 1 } else { 3usize }) {
       cur.push(if variant == 0 { Call::Sub(st.n_sub) } else { Call::SubTake(st.n_sub, variant) });
       st.n_sub += 1;
       st.live.push(true);
+      st.plain.push(variant == 0);
       rec(cur, st, kind, hot, max_len, emit_from, out);
+      st.plain.pop();
       st.live.pop();
       st.n_sub -= 1;
       cur.pop();
@@ -130,18 +136,19 @@ fn rec(cur: &mut Vec<Call>, st: &mut St, kind: Kind, hot: bool, max_len: usize, 
 /// every history of length 1..=max_len (stored)
 pub fn histories(kind: Kind, hot: bool, max_len: usize) -> Vec<Vec<Call>> {
   let mut out = vec![];
-  rec(&mut vec![], &mut St { n_sub: 0, live: vec![], connected: false, src_done: false }, kind, hot, max_len, 0, &mut |h| out.push(h.to_vec()));
+  rec(&mut vec![], &mut St { n_sub: 0, live: vec![], plain: vec![], connected: false, src_done: false }, kind, hot, max_len, 0, &mut |h| out.push(h.to_vec()));
   out
 }
 
 /// every proper extension of `prefix` up to max_len, streamed to `sink`
 pub fn extensions(prefix: &[Call], kind: Kind, hot: bool, max_len: usize, sink: &mut dyn FnMut(&[Call])) {
-  let mut st = St { n_sub: 0, live: vec![], connected: false, src_done: false };
+  let mut st = St { n_sub: 0, live: vec![], plain: vec![], connected: false, src_done: false };
   for c in prefix {
     match c {
       Call::Sub(_) | Call::SubTake(..) => {
         st.n_sub += 1;
         st.live.push(true);
+        st.plain.push(matches!(c, Call::Sub(_)));
       }
       Call::Unsub(i) => st.live[*i] = false,
       Call::Connect => st.connected = true,
